@@ -692,7 +692,9 @@ class BaseNodeVisitor(ast.NodeVisitor):
             error["context"] = context
 
         if lineno is not None and self._changes_for_fixer is not None:
-            if self.add_ignores:
+            # Errors that do not obey ignore comments (such as unused_ignore) cannot be
+            # silenced by adding one; keep their own replacement, if any.
+            if self.add_ignores and obey_ignore:
                 this_line = lines[lineno - 1]
                 indentation = analysis_lib.get_indentation(this_line)
                 if error_code is not None:
